@@ -131,7 +131,8 @@ def check(prop, tier, seed):
 
     replay_paths = []
     if unlisted:
-        rdir = os.path.join(VERIF_DIR, "replay", prop)
+        rdir = os.path.join(VERIF_DIR, "replay", prop) if REPO == "/repo" else os.path.join(
+            os.environ.get("VF_EVIDENCE_DIR", tempfile.gettempdir()), "replay", prop)
         os.makedirs(rdir, exist_ok=True)
         seen = set()
         for v in unlisted:
@@ -175,8 +176,10 @@ def check(prop, tier, seed):
         "coverage": coverage, "assumptions": getattr(mod, "ASSUMPTIONS", []), "wall_s": wall,
         "violations": len(unlisted),
     }
-    os.makedirs(os.path.join(VERIF_DIR, "evidence"), exist_ok=True)
-    with open(os.path.join(VERIF_DIR, "evidence", f"{prop}.json"), "w") as f:
+    # evidence/ describes runs against /repo only; self-validation runs (VERIF_REPO=<scratch copy>) write elsewhere
+    edir = os.path.join(VERIF_DIR, "evidence") if REPO == "/repo" else os.environ.get("VF_EVIDENCE_DIR", tempfile.gettempdir())
+    os.makedirs(edir, exist_ok=True)
+    with open(os.path.join(edir, f"{prop}.json"), "w") as f:
         json.dump(evidence, f, indent=1, default=str)
         f.write("\n")
 
